@@ -302,9 +302,10 @@ package beacon
 //@   ensures [C07:new-share-and-group-are-live-once-the-last-pre-transition-round-is-stored] !closed && b.Round >= targetRound ==> h.crypto.group == newGroup && h.crypto.share == newShare
 //@   ensures [C07:no-swap-before-the-last-pre-transition-round] closed || b.Round < targetRound ==> h.crypto.group == old(h.crypto.group) && h.crypto.share == old(h.crypto.share) && h.crypto.pub == old(h.crypto.pub)
 
+//@ pred wfTransition(h, newGroup) := h.conf != nil && h.conf.Group != nil && h.chain != nil && newGroup != nil && common.validPeriod(h.conf.Group.Period) && common.validGenesis(h.conf.Group.GenesisTime) && newGroup.TransitionTime >= h.conf.Group.GenesisTime && newGroup.TransitionTime <= h.conf.Group.GenesisTime + 1125899906842624
 //@ func (*Handler).TransitionNewGroup(h, ctx, newShare, newGroup)
 //@   props C07
-//@   requires h != nil ==> h.conf != nil && h.conf.Group != nil && h.chain != nil && newGroup != nil && common.validPeriod(h.conf.Group.Period) && common.validGenesis(h.conf.Group.GenesisTime) && newGroup.TransitionTime >= h.conf.Group.GenesisTime && newGroup.TransitionTime <= h.conf.Group.GenesisTime + 1125899906842624
+//@   requires h != nil ==> wfTransition(h, newGroup)
 //@   call AddCallback#0: assert [C07:swap-is-armed-for-the-round-just-before-the-transition-time] common.timeOf(h.conf.Group.Period, h.conf.Group.GenesisTime, targetRound + 1) == newGroup.TransitionTime
 //@ iface (CallbackStore).AddCallback(s, id, fn)
 //@   trusted registers fn in the store's own callback registry (callbackStore.AddCallback is checked under C12); no other state of the functions under contract changes
@@ -462,3 +463,9 @@ package beacon
 //@   loop 0: invariant [C10:repair-keeps-the-pinned-configuration] syncConfigured(s)
 //@   call ReSync#0: assert [C10:repair-re-fetches-exactly-the-round-taken-from-the-report] arg2 == b && arg3 == b && arg4 == peers
 //@   ensures [C10:a-failed-repair-is-reported] err == nil && len(faultyBeacons) > 0 ==> len(errAcc) == 0
+
+// ---- C04: ticks carry the round of the instant they fired ---------------------------------------------------------------
+//@ func (*ticker).Start(t)
+//@   props C04
+//@   requires t.clock != nil && common.validPeriod(t.period) && common.validGenesis(t.genesis)
+//@   call CurrentRound#0: assert [C04:a-tick-carries-the-round-of-the-instant-it-fired] arg0 == unixOf(nt.wall, nt.ext) && arg1 == t.period && arg2 == t.genesis
